@@ -7,6 +7,7 @@ impl<'a> Acceptor<'a> {
     self.end = range.end;
     self.aborted = false;
     self.in_bottom_up = true;
+    self.executed_in_build.clear();
     let panicked = matches!(result, BuildResult::Panic(_));
     for r in report {
       if !self.sched_frame_res(*r, true) { self.drain(); self.in_bottom_up = false; return; }
@@ -51,8 +52,8 @@ impl<'a> Acceptor<'a> {
   }
 
   fn execute_and_schedule(&mut self, d: TaskId) -> bool {
-    if self.executed_in_session.contains(&d) {
-      self.fail("I1-double-exec", format!("T{} is executed a second time in this bottom-up build/session", d));
+    if self.executed_in_build.contains(&d) {
+      self.fail("I1-double-exec", format!("T{} is executed a second time in this bottom-up build", d));
     }
     let had_output = self.shadow.last.get(&d).map(|e| e.complete).unwrap_or(false);
     if had_output { self.facts.re_executed.push(d); } else { self.facts.first_executed.push(d); }
@@ -201,7 +202,7 @@ impl<'a> Acceptor<'a> {
         self.fail("missing-exec", format!("T{} has never completed but is not executed when required during a bottom-up build", u));
         return false;
       }
-      if self.executed_in_session.contains(&u) { self.fail("I1-double-exec", format!("T{} is executed a second time in this session", u)); }
+      if self.executed_in_build.contains(&u) { self.fail("I1-double-exec", format!("T{} is executed a second time in this bottom-up build", u)); }
       self.facts.first_executed.push(u);
       if !self.execution(u) { return false; }
       self.validated.insert(u);
@@ -226,7 +227,7 @@ impl<'a> Acceptor<'a> {
       }
     }
     // Not executed: then nothing u depends on may still be scheduled, nor u itself.
-    if !self.executed_in_session.contains(&u) {
+    if !self.executed_in_build.contains(&u) {
       let pending: Vec<TaskId> = self.queue.iter().cloned().filter(|d| *d == u || self.shadow.reaches(u, *d)).collect();
       if !pending.is_empty() {
         self.fail("bu-undrained", format!("require of T{} returned its cached output while {:?}, which it depends on, are still scheduled", u, pending));
